@@ -31,7 +31,7 @@ inductive Ev where
   | realloc (old new : Nat) (ok : Bool)
   | move (dst src n : Nat)
   | notify (src : Nat) (neg : Bool) (amt : Nat) (bytes : List Nat)
-  deriving Repr, Inhabited
+  deriving Repr, Inhabited, DecidableEq
 
 /-- Result of a traced call. -/
 abbrev Traced (α : Type) := (Mem × Except Err α) × List Ev
@@ -453,5 +453,22 @@ def maxLen : Nat → List Ev → Nat
   | len, [] => len
   | len, .realloc _ new ok :: es => max len (maxLen (if ok then new else len) es)
   | len, _ :: es => maxLen len es
+
+/-! ## Replaying the raw accesses on the allocation (`data ++ slack`) -/
+
+/-- The allocation the data access grants: `mem` (all `orig + 10240` bytes: data followed by slack)
+and the current data length. -/
+abbrev Alloc := List Nat × Nat
+
+/-- One raw access performed on the allocation. A granted growth zero-fills `[len, new)` from the allocation's own
+current length (what the runtime's realloc / the harness's data access do); a shrink only changes the length; `sol_memmove`
+copies inside `mem`. -/
+def execEv : Alloc → Ev → Alloc
+  | (mem, len), .realloc _ new ok =>
+    if ok then (if len < new then wr mem len (List.replicate (new - len) 0) else mem, new) else (mem, len)
+  | (mem, len), .move d s n => (memmove mem d s n, len)
+  | a, _ => a
+
+def execEvs (a : Alloc) (evs : List Ev) : Alloc := evs.foldl execEv a
 
 end Unsized.Machine
